@@ -165,6 +165,14 @@ func runC05(c *Ctx) error {
 			emit("in", text, v, "(FIn "+gal.StrList([]string{d, "7"})+")", nil, "directed:in-magnitude:"+verdictCell("in", v, text))
 		}
 	}
+	for _, u := range []uint64{1 << 63, 1<<63 + 7, ^uint64(0), ^uint64(0) - 1, 1<<63 - 1} {
+		d := strconv.FormatUint(u, 10)
+		for _, v := range []interface{}{u, uint(u), d} {
+			text := valid.GenValidKV("in", d+"/7")
+			emit("in", text, v, "(FIn "+gal.StrList([]string{d, "7"})+")", nil, "directed:in-big-unsigned:"+verdictCell("in", v, text))
+		}
+		emit("unique", "unique", []uint64{u, 3, u}, "FUnique", nil, "directed:unique-big-unsigned")
+	}
 	for _, d := range decimalOpts {
 		f64, _ := strconv.ParseFloat(d, 64)
 		f32v, _ := strconv.ParseFloat(d, 32)
@@ -478,6 +486,24 @@ func runC05(c *Ctx) error {
 		w.Count("multi-rule-fields")
 	}
 
+	// ---- separator triples that read the same when written one after the other but split differently
+	tt := time.Date(2021, 3, 4, 5, 6, 7, 0, time.UTC)
+	for _, tri := range [][3]string{{"ab", "c", ":"}, {"a", "bc", ":"}, {"a", "b", "c:"}, {"ab", "c", ":"}, {"-", "x", "y"}, {"-x", "", "y"}, {"-", "xy", ""}, {"-", "x", "y"}} {
+		layout := "2006" + tri[0] + "01" + tri[0] + "02" + tri[1] + "15" + tri[2] + "04" + tri[2] + "05"
+		text := "datetime='" + tri[0] + "," + tri[1] + "," + tri[2] + "'"
+		for _, sv := range []string{tt.Format(layout), tt.Format("2006-01-02 15:04:05")} {
+			_, perr := time.Parse(layout, sv)
+			orc := newOracles()
+			orc.tm[[2]string{layout, sv}] = perr == nil
+			emit("datetime", text, sv, "(FOracle "+gal.Bool(perr == nil)+")", orc, "directed:datetime-split:"+strings.Join(tri[:], "|")+fmt.Sprint(perr == nil))
+		}
+		for _, mask := range []int{63, 7, 3, 56} {
+			out := valid.GetTimeFmt(int8(mask), tri[0], tri[1], tri[2])
+			w.Add(fmt.Sprintf("CTimeFmt %d %s %s", mask, gal.StrList(tri[:]), gal.Str(out)),
+				map[string]interface{}{"fn": "GetTimeFmt", "mask": mask, "splits": tri, "out": out}, fmt.Sprintf("timefmt-split:%d:%s", mask, strings.Join(tri[:], "|")))
+			w.Count("timefmt")
+		}
+	}
 	// ---- GetTimeFmt itself: all 64 masks x separator lists of length 0..3
 	for mask := 0; mask < 64; mask++ {
 		for k := 0; k <= 3; k++ {
